@@ -13,6 +13,7 @@ C02 line-protocol driver.
 -/
 import CaddyModel.Util.Hex
 import CaddyModel.C02.Model
+import CaddyModel.C02.Key
 
 namespace CaddyModel.C02
 
@@ -457,7 +458,30 @@ def validateLoop (sc : Scenario) (s : State) (i : Nat) : List String → String
 def validate (sc : Scenario) (trace : String) : String :=
   if trace == "-" then "accept" else validateLoop sc init 0 (trace.splitOn ";")
 
+def hexStr (s : String) : String := Hex.encode s.toUTF8.toList
+
+def unhexStr (s : String) : Option String := (Hex.decode s).map bytesToString
+
+/-- `key <L|N> <addr> <network> <host> <port>` (hex; the last three are what the real SplitNetworkAddress
+    returned): parse result, sockets, and the keys of the first socket; with `L` the harness really
+    listens on the address, reads the booked key off the pool and asks `ListenerUsage` the way the HTTP
+    app's Stop does -/
+def handleKey (listen nw host port : String) : String :=
+  match unhexStr nw, unhexStr host, unhexStr port with
+  | some n, some h, some p =>
+    match parseAddr n h p with
+    | none => "err"
+    | some na =>
+      "ok " ++ hexStr na.network ++ " " ++ hexStr na.host ++ " " ++ toString na.startPort ++ " " ++ toString na.endPort
+        ++ " " ++ toString na.size ++ " " ++ hexStr (na.joinHostPort (na.size - 1))
+        ++ " " ++ (if adminAddrOk na then "1" else "0")
+        ++ (if listen == "L" then
+              " " ++ hexStr (na.bookKey 0) ++ " " ++ (if na.usageKey 0 == na.bookKey 0 then "1" else "0")
+            else "")
+  | _, _, _ => "bad-op"
+
 def handle : List String → String
+  | ["key", listen, _, nw, host, port] => if listen == "L" || listen == "N" then handleKey listen nw host port else "bad-op"
   | ["seq", grace, napps, cfgs, toks, trace] =>
     match parseScenario grace napps cfgs toks with
     | some sc => summary sc ++ " " ++ validate sc trace
